@@ -3,7 +3,7 @@ import json
 import common
 
 PROPS = "RotoV.Props.C13"
-EXTRA = ["RotoV.Lemmas.Scope", "RotoV.Lemmas.ScopePath", "RotoV.Lemmas.ScopeFrame", "RotoV.Lemmas.ScopeBuild", "RotoV.Lemmas.ScopeDiscovery", "RotoV.Lemmas.ScopeExport", "RotoV.Lemmas.ScopeWitness", "RotoV.Lemmas.ScopeImports", "RotoV.Lemmas.ScopeTermination", "RotoV.Lemmas.ScopeGetFunction", "RotoV.Lemmas.ScopeNoPanic", "RotoV.Lemmas.ScopeAlias", "RotoV.Lemmas.ScopeImportsLoop", "RotoV.Lemmas.ScopeImportsComplete", "RotoV.Model.ScopeImportsLoop", "RotoV.Model.Scope"]
+EXTRA = ["RotoV.Lemmas.Scope", "RotoV.Lemmas.ScopePath", "RotoV.Lemmas.ScopeFrame", "RotoV.Lemmas.ScopeBuild", "RotoV.Lemmas.ScopeDiscovery", "RotoV.Lemmas.ScopeExport", "RotoV.Lemmas.ScopeWitness", "RotoV.Lemmas.ScopeImports", "RotoV.Lemmas.ScopeTermination", "RotoV.Lemmas.ScopeGetFunction", "RotoV.Lemmas.ScopeNoPanic", "RotoV.Lemmas.ScopeAlias", "RotoV.Lemmas.ScopeImportsLoop", "RotoV.Lemmas.ScopeImportsComplete", "RotoV.Lemmas.ScopeResolveLoop", "RotoV.Lemmas.ScopePathLoop", "RotoV.Model.ScopePathLoop", "RotoV.Lemmas.ScopeImportOne", "RotoV.Model.ScopeImportOne", "RotoV.Model.ScopeImportsLoop", "RotoV.Model.ScopeResolveLoop", "RotoV.Model.Scope"]
 
 
 def search(ctx):
@@ -14,15 +14,16 @@ def search(ctx):
 
 
 def run(ctx):
-    ctx.extract(["scopefacts", "scopeimports"])
+    ctx.extract(["scopefacts", "scopeimports", "scoperesolve", "scopepath", "scopeimportone"])
     ctx.prove(PROPS, extra_modules=EXTRA)
     if ctx.build_harness("c13"):
         ctx.harness("c13", ["run", ctx.seed, ctx.tier], timeout=3000)
     ctx.trusted += [
         "hand-written model RotoV/Model/Scope.lean of ScopeGraph (wrap, resolve_name, insert_declaration, "
         "insert_import, parent_module, module_name, print_scope), resolve_module_part_of_path, import/imports, the "
-        "name-relevant passes of check_module_tree, full_name/get_function and find_files/process_subdir; tied to the "
-        "source by the differential run only (the quantifier over module trees is sampled there)",
+        "name-relevant passes of check_module_tree, full_name/get_function and find_files/process_subdir; resolve_name, "
+        "resolve_module_part_of_path, import and the loop of imports are tied by transliteration theorems, the rest by "
+        "generated facts and the differential run only (the quantifier over module trees is sampled there)",
         "stub declarations and their later update are merged in the model; TypeParams scopes are not allocated "
         "(scope numbering is compared through print_scope, never raw)",
         "the parser's expansion of nested import lists is re-implemented in the harness (prefix ++ sub-path) and "
@@ -32,6 +33,17 @@ def run(ctx):
         "into the little language of Model/ScopeImportsLoop.lean (the meaning of `retain(|p| import(p).is_err())` and of "
         "`for p in &paths { import(p)?; }` is retainPass / importAll of the hand model); any other statement form is an "
         "extraction failure",
+        "translator target scoperesolve: the body of the loop of ScopeGraph::resolve_name is transliterated statement "
+        "by statement into the little language of Model/ScopeResolveLoop.lean (locals by name, `&e` / `e.clone()` "
+        "mean e, the MetaId of an import entry is dropped); any other statement or expression form is an extraction "
+        "failure",
+        "translator target scopepath: TypeChecker::resolve_module_part_of_path is transliterated (prologue, body of the "
+        "`while` over leading supers, statements between the loops, body of the final `loop`) into the little language "
+        "of Model/ScopePathLoop.lean; `parent_module` means the hand model's Graph.parentModule (tied by correspondence), "
+        "the error constructors are recognised by method name / message; any other form is an extraction failure",
+        "translator target scopeimportone: the three statements of TypeChecker::import are recognised by their text up to "
+        "the names of the two bound locals (resolve from `scope`, leftover test, insert into `scope` under "
+        "`declaration.name`); insert_import's table / key / occupied-is-error are textual facts",
         "translator target scopefacts (extract/src/targets/c13.rs): locates the consulted tables / literals by what "
         "is consulted (method names, receivers, compared variables), not by code shape",
     ]
